@@ -683,6 +683,34 @@ func (env *Env) call(x *CCall) Val {
 		n := *env
 		n.st = env.old
 		return n.eval(x.Args[0])
+	case "applyfn":
+		// applyfn(f, i, args...): the i-th result of calling the function value f on args — the same uninterpreted
+		// application the engine uses for calls through function values declared pure (option pure_funcs)
+		if len(x.Args) < 2 {
+			env.fail("applyfn(f, i, args...)")
+		}
+		f := env.ex.materialize(env.eval(x.Args[0]))
+		ki, ok := x.Args[1].(*CInt)
+		sig, ok2 := f.T.Underlying().(*types.Signature)
+		if !ok || !ok2 {
+			env.fail("applyfn: need a function value and a constant result index")
+		}
+		var idx int
+		fmt.Sscan(ki.V, &idx)
+		if idx >= sig.Results().Len() {
+			env.fail("applyfn: result index out of range")
+		}
+		sorts := []string{sInt}
+		terms := []string{f.E}
+		for _, a := range x.Args[2:] {
+			v := env.eval(a)
+			sorts = append(sorts, v.S)
+			terms = append(terms, v.E)
+		}
+		rt := sig.Results().At(idx).Type()
+		rs := em.sortOf(rt)
+		name := fmt.Sprintf("app%d_%s_%s", idx, sanitize(strings.Join(sorts, "_")), sanitize(rs))
+		return Val{E: env.ex.uf(name, sorts, rs, terms...), S: rs, T: rt}
 	case "ival":
 		// ival(x): the payload of an interface value (the pointer, for pointer dynamic types)
 		v := env.eval(x.Args[0])
